@@ -44,7 +44,7 @@ def cases(draw):
             arg = draw(st.integers(0, 3))
         at = draw(st.sampled_from([["start"], ["start"], ["start"], ["after", draw(st.integers(0, max(0, i - 1)))], ["step", draw(st.integers(0, 25))]])) if i else ["start"]
         ops.append({"kind": kind, "arg": arg, "at": at, "via": draw(st.sampled_from(["w", "w", "w+r"]))})
-    return {"hsalt": draw(st.integers(0, 15)), "threads": draw(st.sampled_from(["sync", "async"])), "mode": mode, "fmt": draw(st.sampled_from(["sdmf", "mdmf"])), "k": draw(st.integers(1, 2)), "n": draw(st.integers(2, 4)), "ops": ops,
+    return {"hsalt": draw(st.integers(0, 15)), "threads": draw(st.sampled_from(["sync", "async", "held"])), "mode": mode, "fmt": draw(st.sampled_from(["sdmf", "mdmf"])), "k": draw(st.integers(1, 2)), "n": draw(st.integers(2, 4)), "ops": ops,
             "sched": draw(st.lists(st.integers(0, 9), max_size=draw(st.sampled_from([0, 30, 200]))))}
 
 
@@ -58,7 +58,7 @@ class ModifierBoom(Exception):
 
 def run_case(case, ctx):
     from vf import boot as _boot
-    _boot.set_thread_mode(case.get("threads") == "async")      # defer_to_thread answered in a later reactor turn (as in production) or synchronously
+    _boot.set_thread_mode(case.get("threads") or "sync")      # defer_to_thread answered in a later reactor turn (as in production) or synchronously
     from allmydata.interfaces import NoSuchChildError, ExistingChildError
     from allmydata.mutable.publish import MutableData
     from allmydata.uri import LiteralFileURI
